@@ -106,6 +106,7 @@ type Specs struct {
 	Pures     map[string]*PureDecl
 	Axioms    []Clause
 	Sentinels []string // qualified global names
+	SentinelType map[string]string // sentinel -> dynamic type name (optional)
 	GlobalInv []Clause
 	Monitors  []*Monitor
 	Census    []*Census
@@ -129,7 +130,7 @@ func newSpecs() *Specs {
 	return &Specs{
 		Funcs: map[string][]*FuncContract{}, Roles: map[string]*FuncContract{},
 		Ghosts: map[string]*GhostDecl{}, SpecFns: map[string]*SpecDecl{}, Pures: map[string]*PureDecl{},
-		Immutable: map[string]bool{},
+		Immutable: map[string]bool{}, SentinelType: map[string]string{},
 	}
 }
 
@@ -482,6 +483,9 @@ func (sp *Specs) loadContractFile(path, pkg string, assumed bool) error {
 					s = curPkg + "." + s
 				}
 				sp.Sentinels = append(sp.Sentinels, s)
+				if wtag != "" {
+					sp.SentinelType[s] = strings.Trim(wtag, "[]")
+				}
 			}
 		case "immutable":
 			for _, s := range strings.Fields(rest) {
